@@ -24,7 +24,7 @@ func init() {
 		ID:    "C10",
 		Level: "exploration",
 		Rule: "one case = one cluster of real server nodes in-process: 1-2 passthrough leaders, P in 1..5 partitions, 1-2 followers per partition, 1-2 tables with partitionBy in {none, subsets of s,n,b} (also listed in unsorted order); " +
-			"generated points inserted alternately through the leaders and into a standalone database; barrier points per (leader, partition) establish that every follower has applied everything before them; " +
+			"generated points (in every other cluster some lack partition keys) inserted alternately through the leaders and into a standalone database; barrier points per (leader, partition) establish that every follower has applied everything before them; " +
 			"then (1) every native cell of the standalone database must be held by exactly one partition with the same values and redundant followers must agree, (2) generated queries (pushdown-eligible or not, subqueries, crosstab, having, order, limit; each repeated so that redundant followers answer) must return the standalone's rows; " +
 			"non-trivial = P >= 2 with data on >= 2 partitions and >= 1 non-pushdown query returning rows; distinct by schema+topology+query hash",
 		Assumptions: []string{"real clocks, data 3-4h old, 48h retention, coarse resolutions; a pair is compared only if leader and standalone report the same until", "timers of the follower start-up and leader idle loop are divided by 10 (VERIF_TIMER_DIV)", "query shapes with findings recorded under C11 (SHIFT in non-pushdown plans, GROUP BY _ with CROSSTAB, LEN() of a partition key, subset-key table without partitionBy) are not generated here"},
